@@ -262,6 +262,24 @@ def install(lib):
                 lib.setitem(it, c, VStr(kk), vv, n)
             return c
         v = it.ctx.force(a[0])
+        if isinstance(v, VGenExpr) and isinstance(v.seq, VDictItems) and not v.seq.values_only:
+            # dict((k, f(k, v)) for k, v in d.items()): pointwise map over the keys of d
+            m = v.seq.m
+            o = lib._map_opt(m)
+            kb = z3.Const('bv!dk', m.kty.sort())
+            kv = m.kty.wrap(kb)
+            vv = m.vty.wrap(o.val(z3.Select(m.t, kb)))
+            if isinstance(vv, VRef):
+                it.ctx.known_class.setdefault(simp(vv.t).get_id(), vv.classes[0]) if vv.classes and len(vv.classes) == 1 else None
+            conds, val = v.predicate(it, VTuple([kv, vv]))
+            if conds or not isinstance(val, VTuple) or len(val.items) != 2:
+                raise Unsupported('dict() of a filtered or non-pair comprehension', n)
+            knew, vnew = val.items
+            if not (isinstance(knew, type(kv)) and knew.t.get_id() == kb.get_id()):
+                raise Unsupported('dict() comprehension that renames keys', n)
+            ou = opt_sort(U)
+            t = z3.Lambda([kb], z3.If(o.is_none(z3.Select(m.t, kb)), ou.none, ou.some(box(vnew))))
+            return VCell(VMap(t, m.kty, Any), 'dict')
         c = it._norm_container(v)
         if isinstance(c, VMap):
             return VCell(VMap(c.t, c.kty, c.vty), 'dict')
